@@ -378,7 +378,7 @@ func (c *checker) nafReport(fn *ssa.Function, wd int, name string, tabs []*nafTa
 	t := tabs[0]
 	w := t.w
 	leaves, runs, maxVars, vbad, rbad := 0, 0, 0, 0, 0
-	var vmsgs, rmsgs []string
+	var vmsgs, rmsgs, stopped []string
 	trans := map[nafState]map[nafState]bool{}
 	for _, tb := range tabs {
 		leaves += tb.leaves
@@ -389,12 +389,19 @@ func (c *checker) nafReport(fn *ssa.Function, wd int, name string, tabs []*nafTa
 		vmsgs = append(vmsgs, tb.vmsgs...)
 		rmsgs = append(rmsgs, tb.rmsgs...)
 		if tb.stopped != "" {
-			rmsgs = append([]string{tb.stopped}, rmsgs...)
+			stopped = append(stopped, tb.stopped)
 			rbad++
 		}
 		for k, v := range tb.trans {
 			trans[k] = v
 		}
+	}
+	// the violations themselves first, then the note that the tabulation was cut short
+	if len(stopped) > 0 {
+		if len(rmsgs) > 2 {
+			rmsgs = rmsgs[:2]
+		}
+		rmsgs = append(rmsgs, stopped[0])
 	}
 	// one obligation per leaf and clause; the leaves without a violation are
 	// discharged also when others fail (a leaf can have several violations)
